@@ -1144,3 +1144,13 @@ LEVEL_TEXT += (" R2 also decides the table when it is written through a generic 
                "helper's type parameter is read off the callable's argument type. R1's query clause accepts the raw query as text or as its bytes (`str::as_bytes`) with an empty literal default (text or byte string, "
                "`c[..]` only as a full-range Index); the streamed chunk's chain starts at the variant-precise sources of the item (lib_c01.sources), so a chunk that comes out of a spliced async helper as `Ok(Some(data))` is `data`.")
 LEVEL_TEXT += " Also (R11): nothing on the dispatch path rewrites the request head (only read accessors and Request::map are used)."
+
+
+SELFTEST += [
+    {"name": "option-forwarded-through-a-binding", "kind": "benign", "why": "behaviour-preserving: `let present = self; visitor.visit_some(present)`",
+     "edits": [("dropshot/src/from_map.rs", "        visitor.visit_some(self)", "        let present = self;\n        visitor.visit_some(present)")]},
+    {"name": "multipart-boundary-logged", "kind": "benign", "why": "behaviour-preserving: a debug line between the boundary parse and the Multipart constructor",
+     "edits": [("dropshot/src/extractor/body.rs", "        // Apply the request body size limit to the multipart stream, too.\n", "        slog::debug!(rqctx.log, \"multipart boundary\"; \"len\" => boundary.len());\n        // Apply the request body size limit to the multipart stream, too.\n")]},
+    {"name": "multipart-boundary-second-guessed", "kind": "mutant", "expect": ["C09.R5"], "why": "a boundary the MIME parser accepted is refused by an extra test (off by one against RFC 2046's 70 characters)",
+     "edits": [("dropshot/src/extractor/body.rs", "        // Apply the request body size limit to the multipart stream, too.\n", "        if boundary.len() > 69 {\n            return Err(HttpError::for_bad_request(None, \"invalid boundary\".to_string()));\n        }\n        // Apply the request body size limit to the multipart stream, too.\n")]},
+]
